@@ -632,8 +632,33 @@ def run(ctx):
                         key="windestimate.equilibrium_range_values:mean-method-0d")
 
 
-READY = False
-LEVEL_TEXT = "TODO"
-LEVEL_NOTE = "TODO"
-TECHNIQUE = "Coq proof over R + extracted-model correspondence + closed-form oracles"
+READY = True
+LEVEL_TEXT = ("Theorems (Coq, over R, all spectra / grids / batch sizes / parameter sets): the friction velocity returned by "
+              "the estimate is 8 pi^3 E_eq/(4 g I beta) for both methods; peak method: E_eq is the maximum of "
+              "fillna0(E f^p), attained at the first maximal bin, where a1,b1 are read; a spectrum with E f^p = c at a bin "
+              "and <= c elsewhere has E_eq = c (peak); mean method modelled with the code's index range [i_min,i_max), "
+              "skip-NaN window statistics, numpy's NaN-first argmin and the clipping of the averaged indices to "
+              "nf-1-nb: if E f^p = c on the nb bins of a window inside the searched range (no NaN, positive spectrum, "
+              "every flat window at the same level) then E_eq = c; scaling the spectrum by c>0 scales u* by c and leaves "
+              "the selected bins and the direction unchanged (both methods, NaN bins included); U10 = u*/kappa "
+              "ln(10/z0) with the Charnock z0 (viscous term included), z0 > 0 for u* > 0; direction = "
+              "fmod(atan2(b1,a1) 180/pi, 360) lies in [0,360) and its unit vector is (a1,b1)/|(a1,b1)| (atan2 defined by "
+              "quadrant from atan and proved against cos/sin); the coming-from/clockwise-from-north bearing "
+              "fmod(270-d,360) has sin = -cos d, cos = -sin d (opposite of the going-to vector) and lies in [0,360); the "
+              "convention switch touches only the direction; a 2D spectrum gives the result of its 1D reduction; batch "
+              "members are independent. Examples show the premises of both level theorems are satisfiable. The model is "
+              "tied to windestimate.py / roughness.py / spectrum.py by running the extracted model and "
+              "estimate_u10_from_spectrum + equilibrium_range_values + as_frequency_spectrum on the same generated "
+              "spectra (analytic tails, random, NaN, zero, all-NaN, all-zero; 0-2 leading dimensions; default and "
+              "non-default keyword arguments; 2D).")
+LEVEL_NOTE = ("Not proved: floating point rounding (comparison at 1e-9 relative, directions as unit vectors); xarray's isel / "
+              "mean(skipna) / argmax semantics are modelled and validated only by execution. When two windows (mean) or "
+              "two bins (peak) tie in exact arithmetic the selected one is decided by rounding: such cases (detected "
+              "independently from the input) are excluded from the model comparison and counted in the evidence; the "
+              "implementation-only oracles still apply to them. Frequencies are assumed >= 0 and ascending (then "
+              "i_min = 0). Known finding (kept as a corpus case): the mean method raises ValueError for a single 1D "
+              "spectrum without leading dimensions.")
+TECHNIQUE = "Coq proof over R + extracted-model correspondence + closed-form oracles on the implementation"
 DESIGN_REF = "DESIGN.md section 5 C12"
+TRUSTED = ["numpy/xarray: argmax/argmin tie and NaN rules, mean(skipna), fancy indexing (modelled, validated by correspondence)",
+           "libm pow/atan/log in OCaml vs numpy (differences far below the 1e-9 tolerance)"]
